@@ -1,5 +1,17 @@
 """C19 — steppers take only allowed steps; assembled components are isolated.
 
+Tie T.  The name mangling (`add_prefix`, `omit_prefix`, `_omit_prefix`,
+`visible_vars`, `hidden_vars`, `slice_dict`, `_assert_disjoint`), the state
+conversion and book-keeping of `Assembly` / `History` (`_to_local_state`,
+`_to_global_state`, `_update_state`, `_init`, `_step`, `init`, `step`,
+`History.update`) and the dd-free part of `AutomatonStepper` (`init`, `step`,
+`_assert_support_assigned`, `_assert_unblocked`, `_unprime_state`; the dd
+calls stay parameters) of the CURRENT omega/steps.py are translated into
+Gallina on every run (tools/py2coq_steps.py -> coq/gen/StepsGen.v) and
+proved EQUAL to the model the theorems talk about
+(coq/GenProofs/StepsBridge.v, re-checked every run; statement
+C19_model_is_translated_code and the C19_translated_* theorems).
+
 Tie H.  The real `omega.steps` is run on
   (1) AutomatonSteppers built from gr1 Streett transducers and from
       hand-made actions, driven by admissible environment inputs and by
@@ -16,6 +28,7 @@ import os
 
 from vlib import core, games
 from vlib import steps_sim as S
+from vlib import steps_gen
 from vlib.core import Broken, Mismatch, Failing
 
 ID = 'C19'
@@ -46,16 +59,39 @@ Definition run_eqb (r : res assembly) (t : res (list dict)) : bool :=
 
 def prove(ctx):
     with ctx.coq_lock():
-        ctx.prove('Properties/C19.v')
+        # tie T: regenerate gen/StepsGen.v from the current steps.py, then
+        # re-prove GenProofs/StepsBridge.v (generated code = model) and the
+        # statements built on it
+        notes, names = steps_gen.ensure_steps(ctx)
+        ctx.prove_with_deps('Properties/C19.v')
+    ctx.extra['translation'] = dict(
+        source=steps_gen.SRC, functions=names,
+        generated='coq/' + steps_gen.GEN,
+        bridge='coq/GenProofs/StepsBridge.v', notes=notes)
     ctx.trusted.append(
-        'tie H only: omega/steps.py is modelled by hand '
-        '(theories/L4Steps/{Mangle,Stepper,Assembly}.v); dd-level '
-        '`let`, `support`, `pick` are modelled by meaning, `pick` is an '
-        'arbitrary choice function (pick l in l)')
+        'translator tie T: tools/py2coq_steps.py (omega/steps.py: name '
+        'mangling, Assembly/History state conversion and book-keeping, the '
+        'dd-free part of AutomatonStepper -> Gallina; str -> string, dict '
+        '-> association list with `d[k] = v` = dset, assert/raise -> error '
+        'values, fields of self -> explicit arguments, in-place changes '
+        'only of dictionaries the function owns; the kinds of the '
+        'parameters are assumptions of the translator; everything not '
+        'translated is listed as a note in coq/gen/StepsGen.v and in the '
+        'evidence)')
     ctx.trusted.append(
-        'EnumStrategyStepper and Component (enumerated strategies, '
-        'networkx graphs) are not modelled; they are exercised only '
-        'through the differential run (oracle check of every step)')
+        'the model (theories/L4Steps/{Mangle,Stepper,Assembly}.v) equals '
+        'the translated code on association lists with distinct keys '
+        '(= Python dictionaries); dd-level `let`, `support`, `pick`, '
+        '`prm.unprimed_support`, `stx.unprime` are parameters of the '
+        'translated stepper and are modelled by meaning (tie H: every '
+        'init/step call compared), `pick` is an arbitrary choice function '
+        '(pick l in l)')
+    ctx.trusted.append(
+        'tie H only: Scheduler, the constructors (`__init__`), '
+        'EnumStrategyStepper, Component and enumerate_impl are not '
+        'translated; Scheduler and the constructors are modelled by hand '
+        'and compared on every run; EnumStrategyStepper and Component '
+        '(enumerated strategies, networkx graphs) are not modelled')
 
 
 # ===================================================================== (1)
